@@ -1,6 +1,6 @@
 SPECIFICATION LawSpec
 CONSTANTS
-  Deep = FALSE
+  Deep = TRUE
   GlobPosBytes = 2
   LoopBits = 8
 INVARIANT BitsTableOK
